@@ -594,8 +594,8 @@ func (e *Env) evalCall(x *Call) *Val {
 		case "String":
 			return intVal("(str.len " + v.E() + ")")
 		case "Int":
-			if _, ok := v.T.Underlying().(*types.Map); ok {
-				return intVal("(select " + e.st.get(u, "MLen") + " " + v.E() + ")")
+			if mt, ok := v.T.Underlying().(*types.Map); ok {
+				return intVal("(select " + e.st.get(u, u.mapLen(mt)) + " " + v.E() + ")")
 			}
 		}
 		evalFail("len of %s", v.Sort)
@@ -682,6 +682,139 @@ func (e *Env) evalCall(x *Call) *Val {
 			cs = append(cs, implies("(> (oCnt "+j.E()+" "+k+") 0)", and(conds...)))
 		}
 		return boolVal(and(cs...))
+	case "decodedFields", "fieldsCnt", "fieldsVal", "fieldsDecOK":
+		// the tag-directed view of a struct value v (by its static type):
+		//   decodedFields(j, v): every JSON field of v holds what encoding/json decodes from object j into a zero struct
+		//   fieldsDecOK(j, "T"):  every present non-null member of j that is a JSON field of T decodes
+		//   fieldsCnt(v, k) / fieldsVal(v, k): number of members named k, and their value, in the encoding of v
+		var st *types.Struct
+		var v *Val
+		var j *Val
+		switch x.Fn {
+		case "decodedFields":
+			j, v = arg(0), arg(1)
+			st, _ = structOf(v.T)
+		case "fieldsDecOK":
+			j = arg(0)
+			sl, ok := x.Args[1].(*StrLit)
+			if !ok {
+				evalFail("fieldsDecOK wants a type literal")
+			}
+			st, _ = structOf(tr.resolveType(sl.V))
+		default:
+			v = arg(0)
+			st, _ = structOf(v.T)
+		}
+		if st == nil {
+			evalFail("%s: not a struct", x.Fn)
+		}
+		var cs, cnt []string
+		valExpr := "jNull"
+		var kE string
+		if x.Fn == "fieldsCnt" || x.Fn == "fieldsVal" {
+			kE = arg(1).E()
+		}
+		for _, f := range jsonFields(st) {
+			var fv *Val
+			if v != nil {
+				fv = v
+				for _, i := range f.path {
+					if i == derefStep {
+						evalFail("%s: embedded pointer", x.Fn)
+					}
+					fv = tr.u.fieldOf(fv, i)
+				}
+			}
+			name := smtString(f.name)
+			switch x.Fn {
+			case "decodedFields", "fieldsDecOK":
+				dec, dok := tr.decFn(f.typ)
+				present := and("(> (oCnt "+j.E()+" "+name+") 0)", not(eq("(oVal "+j.E()+" "+name+")", "jNull")))
+				if x.Fn == "fieldsDecOK" {
+					cs = append(cs, implies(present, "("+dok+" (oVal "+j.E()+" "+name+"))"))
+				} else {
+					cs = append(cs, eq(fv.E(), ite(present, "("+dec+" (oVal "+j.E()+" "+name+"))", tr.u.zero(f.typ).E())))
+					if mt, isMap := f.typ.Underlying().(*types.Map); isMap {
+						// a decoded map is empty exactly when the JSON object it came from is
+						tr.u.decl("specfn:jEmptyObj", "(declare-fun jEmptyObj (JV) Bool)")
+						cs = append(cs, implies(present, and(not(eq(fv.E(), "0")),
+							eq(eq("(select "+e.st.get(tr.u, tr.u.mapLen(mt))+" "+fv.E()+")", "0"), "(jEmptyObj (oVal "+j.E()+" "+name+"))"))))
+					}
+				}
+			default:
+				incl := "true"
+				if f.omitempty {
+					incl = not(tr.emptyOfState(e.st, fv, f.typ))
+				}
+				isK := eq(kE, name)
+				cnt = append(cnt, ite(and(isK, incl), "1", "0"))
+				valExpr = ite(isK, "("+tr.encFn(f.typ)+" "+fv.E()+")", valExpr)
+			}
+		}
+		switch x.Fn {
+		case "fieldsCnt":
+			return intVal("(+ 0 " + strings.Join(cnt, " ") + ")")
+		case "fieldsVal":
+			return mkVal(valExpr, "JV", nil)
+		}
+		return boolVal(and(cs...))
+	case "eachKey":
+		// eachKey("T", k, body): the conjunction of body for k = every JSON field name of struct T (ground instances
+		// instead of a quantifier over a 40-way disjunction)
+		sl, ok := x.Args[0].(*StrLit)
+		id, ok2 := x.Args[1].(*Ident)
+		if !ok || !ok2 {
+			evalFail("eachKey wants a type literal and a variable")
+		}
+		st, _ := structOf(tr.resolveType(sl.V))
+		if st == nil {
+			evalFail("eachKey: %s is not a struct", sl.V)
+		}
+		saved, had := e.vars[id.Name]
+		var cs []string
+		for _, f := range jsonFields(st) {
+			e.vars[id.Name] = mkVal(smtString(f.name), "String", types.Typ[types.String])
+			cs = append(cs, e.eval(x.Args[2]).E())
+		}
+		if had {
+			e.vars[id.Name] = saved
+		} else {
+			delete(e.vars, id.Name)
+		}
+		return boolVal(and(cs...))
+	case "hasAllKeys":
+		// hasAllKeys(c, "T"): every JSON field name of struct T occurs in the string slice c (one existential per name)
+		sl, ok := x.Args[1].(*StrLit)
+		if !ok {
+			evalFail("hasAllKeys wants a type literal")
+		}
+		st, _ := structOf(tr.resolveType(sl.V))
+		if st == nil {
+			evalFail("hasAllKeys: %s is not a struct", sl.V)
+		}
+		saved, had := e.vars["$c"]
+		e.vars["$c"] = arg(0)
+		var cs []string
+		for _, f := range jsonFields(st) {
+			ex, err := parseExpr(fmt.Sprintf("exists i int :: 0 <= i && i < len($c) && $c[i] == %q", f.name))
+			if err != nil {
+				evalFail("hasAllKeys: %v", err)
+			}
+			cs = append(cs, e.eval(ex).E())
+		}
+		if had {
+			e.vars["$c"] = saved
+		} else {
+			delete(e.vars, "$c")
+		}
+		return boolVal(and(cs...))
+	case "str":
+		// str(x): a value of a named string type as a plain string
+		v := arg(0)
+		if v.Sort != "String" {
+			evalFail("str() of a non-string")
+		}
+		return mkVal(v.E(), "String", types.Typ[types.String])
 	case "requiredPresent":
 		// requiredPresent(j, "metaSchemaDefinition"): the members the meta-schema requires are present
 		j := arg(0)
@@ -718,6 +851,16 @@ func (e *Env) evalCall(x *Call) *Val {
 			evalFail("encOf of untyped value")
 		}
 		return mkVal("("+tr.encFn(v.T)+" "+v.E()+")", "JV", nil)
+	case "encOKOf":
+		// encOKOf(x): json.Marshal(x) succeeds (by the static type of x)
+		v := arg(0)
+		if v.T == nil {
+			evalFail("encOKOf of untyped value")
+		}
+		tr.encFn(v.T)
+		okName := "encOK_" + typeKey(v.T)
+		tr.u.decl(okName, fmt.Sprintf("(declare-fun %s (%s) Bool)", okName, tr.u.sortOf(v.T)))
+		return boolVal("(" + okName + " " + v.E() + ")")
 	case "decOf", "decOKOf":
 		sl, ok := x.Args[0].(*StrLit)
 		if !ok {
